@@ -221,6 +221,15 @@ class Evaluator:
                 for key, v in env.items():
                     if isinstance(key, str) and key.startswith(rp + '.'):
                         cenv['this.' + key[len(rp) + 1:]] = v
+            # a value of a single-member wrapper class (Square) is modelled as the value of its only member
+            rec = self.fb.record(callee.d.get('cls') or '') if callee.d.get('cls') else None
+            if rec is not None and len(rec.get('fields', [])) == 1 and not rec.get('bases') and ('this.' + rec['fields'][0]['n']) not in cenv:
+                try:
+                    rv = self.eval(recv, env, depth)
+                except Unknown:
+                    rv = None
+                if isinstance(rv, int):
+                    cenv['this.' + rec['fields'][0]['n']] = rv
         res = self.run(callee, cenv, depth + 1)
         if res.get('ret') is None:
             raise Unknown('void call in expression')
